@@ -349,17 +349,74 @@ def rule_acquire_release(ctx: Ctx) -> None:
     ctx.floor("C08-5", 5)
 
 
+GATE = "happysimulator/components/industrial/gate_controller.py"
+
+
+def rule_round2(ctx: Ctx) -> None:
+    prog = ctx.prog
+    from .common import counting_symmetry
+    n = counting_symmetry(ctx, "C08-5", CONC)
+    need(n >= 3, f"C08-5: expected >= 3 counting concurrency models, found {n}")
+    # heap discipline: a list managed with heapq is re-bound or edited by hand only together with a heapify of what is installed
+    n_h = 0
+    for fn in prog.all_functions(QPS):
+        cls_txt = unparse(fn.cls.node) if fn.cls is not None else ""
+        if "heapq.heappush(self._heap" not in cls_txt or fn.name == "__init__":
+            continue
+        ff = None
+        for st in walk_stmts(fn.node.body):
+            hand = None
+            if isinstance(st, ast.Assign) and path_of(st.targets[0]) == "self._heap" and not (isinstance(st.value, ast.List) and not st.value.elts):
+                hand = ("rebind", path_of(st.value) or unparse(st.value))
+            elif isinstance(st, ast.Expr) and isinstance(st.value, ast.Call) and isinstance(st.value.func, ast.Attribute) and path_of(st.value.func.value) == "self._heap" \
+                    and st.value.func.attr in ("remove", "pop", "insert", "append", "extend", "sort", "reverse"):
+                hand = ("edit", "self._heap")
+            elif isinstance(st, ast.Delete) and any(isinstance(t, ast.Subscript) and path_of(t.value) == "self._heap" for t in st.targets):
+                hand = ("edit", "self._heap")
+            if hand is None:
+                continue
+            n_h += 1
+            ff = ff or ctx.flow(fn)
+            sn = node_of(ff.cfg, st)
+            hs = [c for c in calls_in(fn.node) if path_of(c.func) == "heapq.heapify" and c.args and path_of(c.args[0]) in (hand[1], "self._heap")]
+            ok = False
+            if hand[0] == "rebind" and hs:
+                # the installed list was heapified before it is installed, or the attribute is heapified afterwards on every path
+                ok = any(not always_before(ctx, fn, lambda x, h=h: x is node_of(ff.cfg, h), lambda x: x is sn) for h in hs if path_of(h.args[0]) == hand[1])
+            if not ok and hs:
+                after = [node_of(ff.cfg, h) for h in hs if path_of(h.args[0]) == "self._heap"]
+                if after:
+                    ok = all(any(n2 in after for n2 in p.nodes) for p in enumerate_paths(ff, sn) if p.end == "exit")
+            ctx.ob("C08-3", "G2", fn, st, ok, f"{fn.qual}: the heap list is {'replaced' if hand[0] == 'rebind' else 'edited by hand'} only together with heapq.heapify (a filtered or edited list is not a heap; pop would no longer return the minimum)")
+    need(n_h >= 1, "C08-3: no hand edit / rebind of a heapq-managed list found (expected DeadlineQueue.purge_expired)")
+    # gate schedule: open and close of a window are created together, windows in schedule order (creation order breaks same-instant ties)
+    se = prog.func(GATE, "GateController.start_events")
+    loops = [st for st in se.node.body if isinstance(st, ast.For) and path_of(st.iter) == "self.schedule"]
+    ok = len(loops) == 1
+    if ok:
+        kinds = [unparse(k.value) for c in calls_in(loops[0]) if path_of(c.func) == "Event" for k in c.keywords if k.arg == "event_type"]
+        ok = kinds == ["_GATE_OPEN", "_GATE_CLOSE"] and not any(isinstance(x, (ast.ListComp, ast.GeneratorExp)) and "Event" in unparse(x) for x in ast.walk(se.node))
+        rets = [st for st in se.node.body if isinstance(st, ast.Return)]
+        ok = ok and len(rets) == 1 and path_of(rets[0].value) is not None
+    ctx.ob("C08-3", "G2", se, loops[0] if loops else None, ok, "GateController creates each window's open event and then its close event, window by window: a close and the next window's open at the same instant are delivered close-first")
+
+
 def run(ctx: Ctx) -> None:
     ctx.guarded(rule_policy_contract)
     ctx.guarded(rule_ordering)
     ctx.guarded(rule_queue_entity)
     ctx.guarded(rule_acquire_release)
+    ctx.guarded(rule_round2)
 
 
 CODEL = QPS + "codel.py"
 DEADL = QPS + "deadline_queue.py"
 FAIR = QPS + "fair_queue.py"
 MUTANTS = [
+    ("dynamic-release-by-weight", CONC, "            weight: Ignored for DynamicConcurrency (always 1).\n        \"\"\"\n        self._active = max(0, self._active - 1)", "            weight: Ignored for DynamicConcurrency (always 1).\n        \"\"\"\n        self._active = max(0, self._active - weight)", "C08-5"),
+    ("purge-expired-without-heapify", DEADL, "            heapq.heapify(new_heap)\n            self._heap = new_heap", "            self._heap = new_heap", "C08-3"),
+    ("gate-opens-then-closes", GATE, ["        events: list[Event] = []\n        for open_at, close_at in self.schedule:\n            events.append(\n                Event(\n                    time=Instant.from_seconds(open_at),\n                    event_type=_GATE_OPEN,\n                    target=self,\n                    daemon=True,\n                )\n            )\n"],
+     ["        events: list[Event] = [Event(time=Instant.from_seconds(o), event_type=_GATE_OPEN, target=self, daemon=True) for o, _ in self.schedule]\n        for open_at, close_at in self.schedule:\n"], "C08-3"),
     ("fifo-push-over-capacity", QP, "class FIFOQueue(QueuePolicy[T]):", "class FIFOQueue(QueuePolicy[T]):\n    _SLACK = 1", "C08-NONE"),
     ("fifo-capacity-off-by-one", QP, "    def push(self, item: T) -> bool:\n        if len(self._queue) >= self.capacity:\n            return False\n        self._queue.append(item)\n        return True\n\n    def pop(self) -> T | None:\n        if not self._queue:\n            return None\n        return self._queue.popleft()",
      "    def push(self, item: T) -> bool:\n        if len(self._queue) > self.capacity:\n            return False\n        self._queue.append(item)\n        return True\n\n    def pop(self) -> T | None:\n        if not self._queue:\n            return None\n        return self._queue.popleft()", "C08-1"),
@@ -373,7 +430,7 @@ MUTANTS = [
     ("codel-drop-uncounted", CODEL, "            self._queue.popleft()\n            self._dropped += 1", "            self._queue.popleft()", "C08-2"),
     ("deadline-expired-uncounted", DEADL, "            if now is not None and entry.deadline < now:\n                self._expired += 1\n                continue", "            if now is not None and entry.deadline < now:\n                continue", "C08-2"),
     ("fair-push-ignores-flow-capacity", FAIR, "        if len(flow_queue) >= self._per_flow_capacity:\n            self._rejected_flow_capacity += 1\n            return False\n", "", "C08-1"),
-    ("queue-notify-after-push-emptiness", Q, "        was_empty = self.policy.is_empty()\n        accepted = self.policy.push(event)", "        accepted = self.policy.push(event)\n        was_empty = self.policy.is_empty()", "C08-6"),
+    ("queue-notify-after-push-emptiness", Q, "        was_empty = self.policy.is_empty()\n\n        accepted = self.policy.push(event)", "        accepted = self.policy.push(event)\n        was_empty = self.policy.is_empty()", "C08-6"),
     ("queue-notify-always", Q, "        if was_empty:\n            logger.debug(\"[%s] Queue was empty, notifying driver\", self.name)", "        if True:\n            logger.debug(\"[%s] Queue was empty, notifying driver\", self.name)", "C08-6"),
     ("queue-drop-uncounted", Q, "        if not accepted:\n            self.stats_dropped += 1", "        if not accepted:", "C08-6"),
     ("queue-poll-delivers-peek", Q, "        next_item = self.policy.pop()\n        if next_item is None:", "        next_item = self.policy.peek()\n        if next_item is None:", "C08-6"),
